@@ -248,7 +248,7 @@ namespace
       int nops = 1 + int(sim::cfg_weighted("fault_ops", {5, 2, 1}));
       for(int k = 0; k < nops; ++k)
       {
-        int kind = int(sim::cfg_weighted(("fault_kind" + std::to_string(k)).c_str(), {4, 2, 1, 1, 3, 3, 3, 2, 2, 2, 2, 3}));
+        int kind = int(sim::cfg_weighted(("fault_kind" + std::to_string(k)).c_str(), {4, 2, 1, 1, 3, 3, 3, 2, 2, 2, 2, 3, 2}));
         int bias = int(sim::cfg_int(("fault_bias" + std::to_string(k)).c_str(), 0, 1));
         switch(kind)
         {
@@ -264,6 +264,7 @@ namespace
         case 9: mapping_out_of_range(bf, log); break;
         case 10: dim_change(bf, log); break;
         case 11: drop_element(bf, log); break;
+        case 12: dup_element(bf, log); break;
         }
       }
       size_t eof_limit = size_t(-1);
@@ -391,10 +392,9 @@ namespace
     // remove one whole child element (opening line .. closing line) - a lost extent of the file that happens to align
     // with an element. Mandatory blocks: <Vertices> and every <Topology> of the root mesh, every <Mapping> of a mesh part
     // with entities of that dimension, every <Topology> of a topology="full" mesh part with entities of that dimension.
-    static void drop_element(Bytes& b, simfs::FaultLog& log)
+    struct El { size_t open, close; std::string name; bool mandatory; bool unique; };
+    static std::vector<El> scan_elements(const Bytes& b, const std::vector<Line>& ls)
     {
-      auto ls = lines_of(b);
-      struct El { size_t open, close; std::string name; bool mandatory; };
       std::vector<El> els;
       bool in_chart = false;
       for(size_t i = 0; i < ls.size(); ++i)
@@ -421,17 +421,54 @@ namespace
           if(u[0] != '<') data = true;
         }
         if(close == size_t(-1)) continue;
-        const bool mand = !chart_child && data && (name == "Vertices" || name == "Topology" || name == "Mapping");
-        els.push_back({i, close, name, mand});
+        const bool counted = !chart_child && (name == "Vertices" || name == "Topology" || name == "Mapping");
+        // blocks the reader must see exactly once: a second <Vertices>/<Topology dim>/<Mapping dim> of the same parent, a
+        // second chart or mesh part of the same name, a second <Points> of a Bezier chart
+        const bool uniq = counted || (!chart_child && (name == "Chart" || name == "MeshPart")) || (chart_child && name == "Points");
+        els.push_back({i, close, name, counted && data, uniq});
       }
+      return els;
+    }
+
+    // remove one whole child element (opening line .. closing line) - a lost extent of the file that happens to align
+    // with an element. Mandatory blocks: <Vertices> and every <Topology> of the root mesh, every <Mapping> of a mesh part
+    // with entities of that dimension, every <Topology> of a topology="full" mesh part with entities of that dimension.
+    static void drop_element(Bytes& b, simfs::FaultLog& log)
+    {
+      auto ls = lines_of(b);
+      std::vector<El> els = scan_elements(b, ls);
       if(els.empty()) return;
-      const El& e = els[simfs::pick(els.size(), "drop_element")];
+      // half of the time aim at a mandatory block (most elements of a big file are optional patches and attributes)
+      std::vector<size_t> mand;
+      for(size_t i = 0; i < els.size(); ++i) if(els[i].mandatory) mand.push_back(i);
+      const bool aim = !mand.empty() && simfs::pick(2, "drop_element_aim") == 1;
+      const El& e = aim ? els[mand[simfs::pick(mand.size(), "drop_element")]] : els[simfs::pick(els.size(), "drop_element")];
       const size_t beg = ls[e.open].beg;
       const size_t end = ls[e.close].end < b.size() ? ls[e.close].end + 1 : ls[e.close].end;
       b.erase(b.begin() + long(beg), b.begin() + long(end));
       log.ops += "DROP_ELEMENT(" + e.name + "@line" + std::to_string(e.open) + ") ";
       if(e.mandatory) { log.must_reject = true; log.why += "a mandatory <" + e.name + "> block with records is missing; "; }
       sim::count_fault("DROP_ELEMENT");
+    }
+
+    // write one whole child element twice (a replayed extent)
+    static void dup_element(Bytes& b, simfs::FaultLog& log)
+    {
+      auto ls = lines_of(b);
+      std::vector<El> els = scan_elements(b, ls);
+      if(els.empty()) return;
+      std::vector<size_t> uq;
+      for(size_t i = 0; i < els.size(); ++i) if(els[i].unique) uq.push_back(i);
+      const bool aim = !uq.empty() && simfs::pick(2, "dup_element_aim") == 1;
+      const El& e = aim ? els[uq[simfs::pick(uq.size(), "dup_element")]] : els[simfs::pick(els.size(), "dup_element")];
+      const size_t beg = ls[e.open].beg;
+      const size_t end = ls[e.close].end < b.size() ? ls[e.close].end + 1 : ls[e.close].end;
+      Bytes cp(b.begin() + long(beg), b.begin() + long(end));
+      if(cp.empty() || cp.back() != '\n') cp.push_back('\n');
+      b.insert(b.begin() + long(end), cp.begin(), cp.end());
+      log.ops += "DUP_ELEMENT(" + e.name + "@line" + std::to_string(e.open) + ") ";
+      if(e.unique) { log.must_reject = true; log.why += "a <" + e.name + "> block that may occur only once in its parent occurs twice; "; }
+      sim::count_fault("DUP_ELEMENT");
     }
 
     // change the first number of a size="..." attribute of <Mesh>/<MeshPart> by +1..+3
